@@ -1162,14 +1162,14 @@ package astits
 // ---------------------------------------------------------------------------
 // muxer.go
 
-// Pieces of the table generation that are not verified: the PAT content is collected from the program map, and
-// writePSIData serialises a section (it installs a CRC callback on the writer, which the generator does not model).
-// Assumed: they touch nothing but what is listed, and a section is shorter than 64 KiB.
+// Pieces of the table generation that are not verified: the PAT content is collected from the program map (a map
+// range), and the PMT section body writer. Assumed: they touch nothing but what is listed, a PMT body is shorter
+// than 60 KiB, is written through w only and leaves it on a byte boundary.
 //@ extern (programMap).toPATDataUnlocked
-//@   ensures [C04,C05,C17] data: result != nil && fresh(result) && 0 <= len(result.Programs) && len(result.Programs) <= 4000
-//@ extern writePSIData
+//@   ensures [C04,C05,C17,C09,C13] data: result != nil && fresh(result) && 0 <= len(result.Programs) && len(result.Programs) <= 4000 && allocated(result.Programs) && forall(k, 0, len(result.Programs), result.Programs[k] != nil) && result.TransportStreamID == 0
+//@ extern writePMTSection
 //@   modifies writer(w)
-//@   ensures [C04,C05,C17] assumed: aligned(w) && 0 <= wN(w) && wN(w) >= old(wN(w)) && wN(w) - old(wN(w)) < 0x10000 && result1 != ErrPCRPIDInvalid
+//@   ensures [C04,C05,C17,C09,C13] assumed: aligned(w) && 0 <= wN(w) && wN(w) >= old(wN(w)) && wN(w) - old(wN(w)) < 0xf000 && wPrefix(w) && (result1 == nil ==> result0 == wN(w) - old(wN(w))) && result1 != ErrPCRPIDInvalid
 // io.Writer (assumed, per its documentation): n bytes are accepted, all of them when no error is returned.
 //@ extern (io.Writer).Write
 //@   modifies sinkN(recv), sinkData(recv), sinkFails(recv)
@@ -1616,6 +1616,70 @@ package astits
 //@   let n0 = old(wN(w))
 //@   ensures [C13,C09,C17] count: wN(w) == n0 + 5 && result0 == 5 && result1 == nil && aligned(w) && wPrefix(w)
 //@   ensures [C13,C09,C17] bytes: be16(wD(w), n0) == h.TableIDExtension && wb(w, n0, 2) == 0xc0 | (h.VersionNumber & 0x1f) << 1 | u8(h.CurrentNextIndicator) && wb(w, n0, 3) == h.SectionNumber && wb(w, n0, 4) == h.LastSectionNumber
+
+// The body of a section: the PAT entries (verified), the PMT body (assumed extern above), nothing for other tables.
+//@ func writePSISectionSyntaxData
+//@   requires aligned(w) && 0 <= wN(w) && wN(w) < 0x200000000000 && d != nil && (tableID == 0 ==> patOK(d.PAT)) && (tableID == 2 ==> d.PMT != nil)
+//@   modifies writer(w)
+//@   let n0 = old(wN(w))
+//@   ensures [C13,C09,C04,C05,C17] any: aligned(w) && wPrefix(w) && n0 <= wN(w) && wN(w) - n0 < 0xf000 && (result1 == nil ==> result0 == wN(w) - n0) && result1 != ErrPCRPIDInvalid
+//@   ensures [C13,C09] pat: tableID == 0 ==> result1 == nil && wN(w) == n0 + 4 * len(d.PAT.Programs) && forall(k, 0, len(d.PAT.Programs), be16(wD(w), n0 + 4 * k) == d.PAT.Programs[k].ProgramNumber && be16(wD(w), n0 + 4 * k + 2) == 0xe000 | d.PAT.Programs[k].ProgramMapID & 0x1fff)
+//@   ensures [C13,C09] other: tableID != 0 && tableID != 2 ==> result1 == nil && wN(w) == n0
+
+// Syntax header (5 bytes, for the tables that have one) followed by the body.
+//@ func writePSISectionSyntax
+//@   requires aligned(w) && 0 <= wN(w) && wN(w) < 0x100000000000 && secOK(s) && s.Syntax != nil && s.Syntax.Data != nil && (tidHasSyntax(u16(s.Header.TableID)) ==> s.Syntax.Header != nil)
+//@   modifies writer(w)
+//@   let n0 = old(wN(w))
+//@   let tid = u16(s.Header.TableID)
+//@   let h = s.Syntax.Header
+//@   let P = s.Syntax.Data.PAT
+//@   ensures [C13,C09,C04,C05,C17] any: aligned(w) && wPrefix(w) && n0 <= wN(w) && wN(w) - n0 < 0xf008 && (result1 == nil ==> result0 == wN(w) - n0) && result1 != ErrPCRPIDInvalid
+//@   ensures [C13,C09,C17] synhdr: result1 == nil && tidHasSyntax(tid) ==> wN(w) >= n0 + 5 && be16(wD(w), n0) == h.TableIDExtension && wb(w, n0, 2) == 0xc0 | (h.VersionNumber & 0x1f) << 1 | u8(h.CurrentNextIndicator) && wb(w, n0, 3) == h.SectionNumber && wb(w, n0, 4) == h.LastSectionNumber
+//@   ensures [C13,C09] pat: tid == 0 ==> result1 == nil && wN(w) == n0 + 5 + 4 * len(P.Programs) && forall(k, 0, len(P.Programs), be16(wD(w), n0 + 5 + 4 * k) == P.Programs[k].ProgramNumber && be16(wD(w), n0 + 5 + 4 * k + 2) == 0xe000 | P.Programs[k].ProgramMapID & 0x1fff)
+
+// A whole section (ISO/IEC 13818-1 2.4.4.1/2.4.4.3/2.4.4.8): table_id, syntax indicator, private bit, '11', 12-bit
+// section_length; then - when the caller's Header.SectionLength is non-zero - syntax header, body and CRC_32.
+// The CRC_32 is accumulated by a write callback that the function installs on the writer (model: bitswriter.go);
+// crc: the four bytes written last are CRC-32/MPEG-2 (bit-serial definition, crc.spec) of every section byte
+// before them; patlen: for a PAT the announced section_length is the number of bytes written after that field.
+//@ func writePSISection
+//@   use crcStore
+//@   split s.Header.TableID == 0, s.Header.TableID == 2, s.Header.SectionLength > 0
+//@   requires aligned(w) && 0 <= wN(w) && wN(w) < 0x080000000000 && secOK(s)
+//@   requires s.Header.SectionLength > 0 ==> s.Syntax != nil && s.Syntax.Data != nil && (tidHasSyntax(u16(s.Header.TableID)) ==> s.Syntax.Header != nil)
+//@   modifies writer(w), w.writeCb
+//@   let n0 = old(wN(w))
+//@   let tid = u16(s.Header.TableID)
+//@   let sl = retof(calcPSISectionLength, 0)
+//@   let h = s.Syntax.Header
+//@   let P = s.Syntax.Data.PAT
+//@   at call (*astikit.BitsWriterBatch).Write#3 assert [C09] acc: sectionCRC32 == crcFold(0xFFFFFFFF, bseq(wD(w), n0, wN(w) - n0), 0, wN(w) - n0) && n0 + 3 <= wN(w)
+//@   at call (*astikit.BitsWriterBatch).Write#3 assert [C13,C09] patmid: tid == 0 ==> wN(w) == n0 + 8 + 4 * len(P.Programs) && forall(k, 0, len(P.Programs), be16(wD(w), n0 + 8 + 4 * k) == P.Programs[k].ProgramNumber && be16(wD(w), n0 + 8 + 4 * k + 2) == 0xe000 | P.Programs[k].ProgramMapID & 0x1fff)
+//@   at call (*astikit.BitsWriterBatch).Write!after#3 assert [C13,C09] patfin: tid == 0 ==> forall(k, 0, len(P.Programs), be16(wD(w), n0 + 8 + 4 * k) == P.Programs[k].ProgramNumber && be16(wD(w), n0 + 8 + 4 * k + 2) == 0xe000 | P.Programs[k].ProgramMapID & 0x1fff)
+//@   at call (*astikit.BitsWriterBatch).Write!after#3 assert [C09] fin: n0 + 7 <= wN(w) && be32(wD(w), wN(w) - 4) == crcFold(0xFFFFFFFF, bseq(wD(w), n0, wN(w) - 4 - n0), 0, wN(w) - 4 - n0)
+//@   ensures [C13,C09,C04,C05,C17] any: aligned(w) && wPrefix(w) && n0 <= wN(w) && wN(w) - n0 < 0xf010 && (result1 == nil ==> result0 == wN(w) - n0) && result1 != ErrPCRPIDInvalid
+//@   ensures [C13,C09] unimpl: tid != 0 && tid != 2 ==> result1 != nil && result0 == 0 && wN(w) == n0
+//@   ensures [C13,C09] header: result1 == nil ==> wN(w) >= n0 + 3 && wb(w, n0, 0) == u8(tid) && be16(wD(w), n0 + 1) == u16(ite(s.Header.SectionSyntaxIndicator, 0x8000, 0)) | u16(ite(s.Header.PrivateBit, 0x4000, 0)) | 0x3000 | sl & 0xfff
+//@   ensures [C13,C09] empty: result1 == nil && s.Header.SectionLength == 0 ==> wN(w) == n0 + 3
+//@   ensures [C13,C09,C17] synhdr: result1 == nil && s.Header.SectionLength > 0 ==> wN(w) >= n0 + 12 && be16(wD(w), n0 + 3) == h.TableIDExtension && wb(w, n0, 5) == 0xc0 | (h.VersionNumber & 0x1f) << 1 | u8(h.CurrentNextIndicator) && wb(w, n0, 6) == h.SectionNumber && wb(w, n0, 7) == h.LastSectionNumber
+//@   ensures [C13,C09] patlen: tid == 0 && s.Header.SectionLength > 0 ==> result1 == nil && sl == u16(9 + 4 * len(P.Programs)) && wN(w) == n0 + 3 + 9 + 4 * len(P.Programs)
+// (the PAT entries in the output are asserted right after the last write, the CRC: patfin - only b.Err() follows it)
+//@   ensures [C09] crc: result1 == nil && s.Header.SectionLength > 0 ==> be32(wD(w), wN(w) - 4) == crcFold(0xFFFFFFFF, bseq(wD(w), n0, wN(w) - 4 - n0), 0, wN(w) - 4 - n0)
+//@   ensures [C09,C13] cboff: result1 == nil ==> w.writeCb == nil
+
+// pointer_field, that many filler bytes, then the sections one after the other.
+//@ func writePSIData
+//@   requires aligned(w) && 0 <= wN(w) && wN(w) < 0x040000000000 && d != nil && 0 <= d.PointerField && d.PointerField <= 255
+//@   requires 0 <= len(d.Sections) && len(d.Sections) <= 16 && allocated(d.Sections) && forall(k, 0, len(d.Sections), secOK(d.Sections[k]) && secFull(d.Sections[k]))
+//@   modifies writer(w), w.writeCb
+//@   let n0 = old(wN(w))
+//@   loop 0 invariant [C13,C09,C04,C05,C17] fill: 0 <= i && i <= d.PointerField && aligned(w) && b.err == nil && wN(w) == n0 + 1 + i && wPrefix(w) && wb(w, n0, 0) == u8(d.PointerField) && forall(k, 0, i, wb(w, n0, 1 + k) == 0)
+//@   loop 1 invariant [C13,C09,C04,C05,C17] secs: rangeindex == iter - 1 && iter <= len(d.Sections) && aligned(w) && wPrefix(w) && n0 + 1 + d.PointerField <= wN(w) && bytesWritten == wN(w) - n0
+//@   loop 1 invariant [C13,C09,C04,C05,C17] bound: wN(w) - n0 <= 256 + 0xf010 * iter
+//@   loop 1 invariant [C13,C09,C04,C05,C17] ptr: wb(w, n0, 0) == u8(d.PointerField)
+//@   ensures [C13,C09,C04,C05,C17] any: aligned(w) && wPrefix(w) && n0 <= wN(w) && wN(w) - n0 <= 256 + 0xf010 * len(d.Sections) && (result1 == nil ==> result0 == wN(w) - n0) && result1 != ErrPCRPIDInvalid
+//@   ensures [C13,C09] pointer: result1 == nil ==> wN(w) >= n0 + 1 + d.PointerField && wb(w, n0, 0) == u8(d.PointerField)
 
 // ---------------------------------------------------------------------------
 // demuxer.go: NextPacket
